@@ -329,3 +329,62 @@ def sampling(tier, rng, rep):
 
 from vf.pcontract import lean_lemmas
 lean_lemmas(P, "word_hom_lemma", "lean/Glue.lean", ["word_hom"], note="list-level statement of the concatenation lemma (any monoid)")
+
+
+@bounded(P, "adjoint_representations_of_complex_representations", functions=[R + "Representation.gln_adjoint", R + "Representation.sln_adjoint", "geometry_tools/lie/core.py:gln_adjoint",
+                                                                            "geometry_tools/lie/core.py:sln_adjoint", "geometry_tools/lie/hom.py:_wrap_hom"],
+         note="the adjoint representations of representations with genuinely complex generators, against basis-independent facts about X -> g X g^-1 (not against the library's own adjoint): "
+              "its eigenvalues are the quotients lambda_i / lambda_j of the eigenvalues of g (one eigenvalue 1 less for sl(n)), hence trace = tr(g) tr(g^-1)")
+def adjoint_representations_of_complex_representations(tier, rng, rep):
+    N = 60 if tier == 'thorough' else 15
+    rep.rule = "n = 1, 2, 3; complex generators a, b with eigenvalues of distinct moduli and arguments; all words to length 3 over a, b, A, B plus random words to length 6; real generators as a control"
+    rep.bound = f"{N} representations x 2 adjoints"
+    for t in range(N):
+        n = 1 + t % 3
+        cplx = t % 4 != 3
+        gens = {}
+        for g in "ab":
+            Pm = rng.normal(size=(n, n)) + (1j * rng.normal(size=(n, n)) if cplx else 0) + 2 * np.identity(n)
+            lam = rng.uniform(0.6, 1.8, n) * (np.exp(1j * rng.uniform(-1.2, 1.2, n)) if cplx else 1.0)
+            gens[g] = np.linalg.inv(Pm) @ np.diag(lam) @ Pm
+        R_ = Representation()
+        for g, M in gens.items():
+            R_[g] = M.copy()
+        mats = {**gens, "A": np.linalg.inv(gens["a"]), "B": np.linalg.inv(gens["b"])}
+        words = [w for w in all_words("abAB", 2) if w] + ["".join(rng.choice(list("abAB"), size=int(rng.integers(3, 7)))) for _ in range(4)]
+        inp = {"n": n, "complex": cplx, "a_re": np.real(gens["a"]).tolist(), "a_im": np.imag(gens["a"]).tolist(), "b_re": np.real(gens["b"]).tolist(), "b_im": np.imag(gens["b"]).tolist()}
+
+        def body():
+            for which in ("gln", "sln"):
+                if which == "sln" and n == 1:
+                    continue
+                Ad = R_.gln_adjoint() if which == "gln" else R_.sln_adjoint()
+                for w in words:
+                    g = np.identity(n, dtype=complex)
+                    for ch in w:
+                        g = g @ mats[ch]
+                    M = np.asarray(Ad[w], dtype=complex)
+                    dim = n * n - (1 if which == "sln" else 0)
+                    if M.shape != (dim, dim):
+                        rep.fail("adjoint_dimension", f"{which}: {M.shape}", {**inp, "word": w}); return
+                    ev = np.linalg.eigvals(g)
+                    want = np.array([a / b for a in ev for b in ev])
+                    got = np.linalg.eigvals(M)
+                    if which == "sln":
+                        # remove one eigenvalue 1 (the centre) from the expected multiset
+                        want = np.delete(want, int(np.argmin(np.abs(want - 1))))
+                    # multiset comparison by greedy matching
+                    rem = list(got)
+                    ok = True
+                    for x in want:
+                        j = int(np.argmin([abs(x - y) for y in rem]))
+                        if abs(x - rem[j]) > 1e-6 * (1 + abs(x)) * np.linalg.cond(g) ** 2:
+                            ok = False; break
+                        rem.pop(j)
+                    tr_want = np.trace(g) * np.trace(np.linalg.inv(g)) - (1 if which == "sln" else 0)
+                    if not ok or abs(np.trace(M) - tr_want) > 1e-7 * (1 + abs(tr_want)) * np.linalg.cond(g) ** 2:
+                        rep.fail("adjoint_is_conjugation_on_matrices", f"{which}_adjoint of the word {w!r}: trace {np.trace(M)}, conjugation by the image has trace {tr_want}", {**inp, "word": w, "adjoint": which}); return
+        rep.attempt("adjoint_runs", inp, body)
+        rep.case(key=(t,), nontrivial=cplx, sample=inp if t == 0 else None)
+        if len(rep.failures) >= 3:
+            return
